@@ -57,7 +57,7 @@ func (w *walker) visit(m *model, depth int) {
 	classes := []string{fmt.Sprintf("hist_len:%d", depth), "size:" + fmt.Sprint(m.size), "state:" + m.form.String()}
 	if depth > 0 {
 		op := m.hist[len(m.hist)-1]
-		if i := strings.IndexByte(op, '{'); i > 0 {
+		if i := strings.IndexAny(op, "{["); i > 0 {
 			op = op[:i]
 		}
 		if i := strings.IndexByte(op, '('); i > 0 {
@@ -93,7 +93,11 @@ func (w *walker) visit(m *model, depth int) {
 	domainPoint, shifted := false, false
 	if m.canEvaluate() {
 		if depth > 0 {
-			switch op := m.hist[len(m.hist)-1]; op {
+			op := m.hist[len(m.hist)-1]
+			if i := strings.IndexByte(op, '['); i > 0 {
+				op = op[:i]
+			}
+			switch op {
 			case "Clone", "ShallowClone", "WriteRead": // evaluated right after, no conversion in between
 				classes = append(classes, "eval_after_"+op+":"+m.form.String())
 			}
@@ -179,18 +183,27 @@ func TestC20_Exhaustive(t *testing.T) {
 				lg, rho, depth int
 				form           inst.IopForm
 				spare          bool
+				size           int // != 0: a size that is not a power of two (lg is then unused)
 			}
 			var jobs []job
 			maxLg, depth := 6, rep.Scale(4, 5)
 			for lg := 0; lg <= maxLg; lg++ {
 				for _, f := range allForms {
-					jobs = append(jobs, job{lg, 1, depth, f, false}, job{lg, 2, depth - 1, f, false}, job{lg, 1, depth - 1, f, true})
+					jobs = append(jobs, job{lg, 1, depth, f, false, 0}, job{lg, 2, depth - 1, f, false, 0}, job{lg, 1, depth - 1, f, true, 0})
+				}
+			}
+			// sizes that are not a power of two: the coefficient vector itself (Canonical/Regular, length = size: it can
+			// only be converted on a larger domain) and each of the 6 forms on the next power of two with SetSize(size)
+			for _, size := range []int{3, 5, 6, 7, 12, 13} {
+				jobs = append(jobs, job{0, 0, depth, canReg, false, size})
+				for _, f := range allForms {
+					jobs = append(jobs, job{0, 1, depth - 1, f, false, size})
 				}
 			}
 			if rep.Thorough() { // larger sizes for a subset: shorter histories
 				for lg := 7; lg <= 10; lg++ {
 					for _, f := range allForms {
-						jobs = append(jobs, job{lg, 1, 3, f, false})
+						jobs = append(jobs, job{lg, 1, 3, f, false, 0})
 					}
 				}
 			}
@@ -200,16 +213,25 @@ func TestC20_Exhaustive(t *testing.T) {
 					continue
 				}
 				size := 1 << j.lg
-				pal := shiftPalette(c, 8*size)
+				n0 := size * j.rho
+				if j.size != 0 {
+					size = j.size
+					n0 = size // the bare coefficient vector
+					if j.rho == 1 {
+						n0 = np2(size)
+					}
+				}
+				pal := shiftPalette(c, 8*np2(size))
 				sh := &shared{c: c, p: randomPoly(c, size, "exh"), size: size, s: pal[ji%len(pal)], pal: pal, tabs: map[int]*tables{}}
 				w := &walker{t: t, test: test, maxDepth: j.depth, maxLen: 4, evalsPer: 4, ctr: ji * 1000003}
 				if size > 64 {
 					w.maxLen, w.evalsPer = 2, 2
 				}
-				m := newModel(sh, j.form, size*j.rho)
+				m := newModel(sh, j.form, n0)
 				if j.spare { // the object is buf[:size] of a buffer with non-zero spare capacity for every growth step
 					m = newModelSpare(sh, j.form, size, 3*size+3)
 				}
+				m.autoShift = true
 				w.visit(m, 0)
 				nodes += w.nodes
 				pruned += w.pruned
@@ -217,7 +239,7 @@ func TestC20_Exhaustive(t *testing.T) {
 			}
 			rep.Exhaustive(test)
 			rep.Note(test, "conversions on a LARGER domain are generated for Canonical objects in both layouts (a coefficient vector refers to no domain); for Lagrange/LagrangeCoset objects the domain argument must be the domain the stored values live on (the object does not record it) - passing a domain of another cardinality is treated as a caller error and not generated, although the library does not reject it (it zero-pads the values and returns a different polynomial)")
-			rep.Note(test, fmt.Sprintf("all operation sequences over %v up to length %d (extended initial objects: %d) from each of the 6 forms, sizes 2^0..2^%d; grow operations apply to Canonical objects (both layouts) and up to 4x the size; every conversion of an object that is not in LagrangeCoset basis is handed a domain whose coset shift rotates over {package default, two fft.WithShift constants}, an object in LagrangeCoset basis the domain of its coset; Evaluate in LagrangeCoset basis only once ToLagrangeCoset has stored the coset (DESIGN §11); GetCoeff in Canonical basis only with shift 0",
+			rep.Note(test, fmt.Sprintf("all operation sequences over %v up to length %d (extended initial objects: %d) from each of the 6 forms, sizes 2^0..2^%d and 3, 5, 6, 7, 12, 13 (bare coefficient vector, and the 6 forms on the next power of two with SetSize); every WriteTo->ReadFrom step first gives the object a shift from {0, +-1, size-1, size, size+1, -size, NextPow2(size)-1.., 2^31-1, -2^31, +-(2^32+1), 2^40+3, MaxInt64, MinInt64} and the decoded object is compared under the decoded shift (Evaluate at free/domain/coset points, GetCoeff everywhere) before anything else touches it; grow operations apply to Canonical objects (both layouts) and up to 4x the size; every conversion of an object that is not in LagrangeCoset basis is handed a domain whose coset shift rotates over {package default, two fft.WithShift constants}, an object in LagrangeCoset basis the domain of its coset; Evaluate in LagrangeCoset basis only once ToLagrangeCoset has stored the coset (DESIGN §11); GetCoeff in Canonical basis only with shift 0",
 				opNames, depth, depth-1, maxLg))
 			t.Logf("%s: %d nodes, %d pruned by precondition, %d nodes without Evaluate (coset not stored)", I.Name(), nodes, pruned, skipped)
 		})
